@@ -37,6 +37,12 @@ TRUSTED = ['the event order delivered by ElementTree.iterparse (start-ns*, start
            'what is compared',
            'the abstract validator of the model is instantiated from error segments measured on the real eager run']
 ASSUMPTIONS = ['lazy depth 1 is claimed; depths 2 and 3 are explored and reported in the histogram only',
+               'compared up to spelling: namespace prefixes in error paths / messages / decoded keys, memory addresses in '
+               'messages, and the order inside a block of dangling-IDREF errors (first-seen order of the ID table)',
+               'decoded data: the lazily decoded skeleton with its placeholders filled by the streamed chunk values is '
+               'compared with the eager value; xmlns pseudo-attributes at the root of a separately decoded chunk are not compared',
+               'for documents with a chunk that is not governed by its static declaration (finding C06-F2) errors that depend '
+               'on document-wide tables (ID/IDREF, identity constraints) are left out of the exact prediction',
                'text of elements above the lazy depth is not compared at their start event (documented as incomplete)',
                'with a byte-wise streaming source, positional predicates of error paths are compared up to the siblings '
                'already parsed (a[1] may be spelled a when no later sibling exists yet)']
@@ -329,11 +335,14 @@ def check_ns_iter(ctx: Ctx, spec, marked: bytes, reqs: list, pend: list, case_ba
     for e in lres.iter():
         lazy_ns[nid_of(e)] = dict(lres.get_nsmap(e))
     ctx.case(case, has_inner_decl, 'api:nsmap')
-    want = {i: scope[i] for i in scope}
+    if set(lazy_ns) != set(scope):
+        ctx.failure('lazy iter does not yield every element exactly once', case,
+                    {'yielded': sorted(lazy_ns), 'expected': sorted(scope)})
+    want = {i: scope[i] for i in lazy_ns}
     if lazy_ns != want:
         ctx.failure('in-scope namespaces of a lazy resource differ from the declarations in scope', case,
                     {'lazy': lazy_ns, 'xml-reading': want})
-    if eager_ns != lazy_ns:
+    if {i: eager_ns[i] for i in lazy_ns} != lazy_ns:
         detail = {'kind': 'eager-nsmap', 'eager': eager_ns, 'lazy': lazy_ns, 'lazy_is_inscope': lazy_ns == want}
         pend.append(('ns-known', case, detail, eager_ns))
     else:
@@ -568,6 +577,8 @@ def check_validation(ctx: Ctx, spec, schema, xml: bytes, defects: list, reqs: li
         if not same_seq:
             if law_canon is None:
                 explained = False
+                ctx.failure('lazy validation reports other errors than full loading', case,
+                            {'eager': list(zip(eg.paths, eg.canon)), 'lazy': lz, 'note': 'document could not be tabulated'})
             else:
                 kind = 'lost' if tb['nonlocal'] else 'order'
                 observed = [x for x in lz_canon if not STATEFUL.search(x[1])] if tb['nonlocal'] else lz_canon
@@ -626,6 +637,15 @@ def check_validation(ctx: Ctx, spec, schema, xml: bytes, defects: list, reqs: li
 def strip_xmlns(x: Any) -> Any:
     if isinstance(x, dict):
         return {k: v for k, v in x.items() if not k.startswith('@xmlns')}
+    return x
+
+
+def _unprefix(x: Any) -> Any:
+    if isinstance(x, dict):
+        return {(k if k.startswith('@xsi:') else re.sub(r'^(@?)[A-Za-z_][\w.-]*:', r'\1', k)): _unprefix(v)
+                for k, v in x.items() if not k.startswith('@xmlns')}
+    if isinstance(x, list):
+        return [_unprefix(v) for v in x]
     return x
 
 
@@ -757,7 +777,27 @@ def check_decode(ctx: Ctx, spec, schema, xml: bytes, case_base: dict) -> None:
                 continue
         ctx.count('decode:%s' % ('same' if ok else 'differs'))
         if not ok:
-            detail = {'kind': 'decode-holes', 'nonlocal': nonlocal_chunks, 'eager': repr(want)[:1500],
+            # every depth-1 element that IS governed by its static declaration must still be streamed with its value
+            local_ok = True
+            if isinstance(want, dict):
+                pool = [repr(_unprefix(strip_xmlns(v))) for v in stream0]
+                for c in eg.tree['cs']:
+                    if c['id'] in nonlocal_chunks:
+                        continue
+                    name = c['tag'].split('}')[-1]
+                    same = [x['id'] for x in eg.tree['cs'] if x['tag'] == c['tag']]
+                    vals = []
+                    for key, v in want.items():
+                        if isinstance(key, str) and key[:1] not in '@$' and key.split(':')[-1] == name:
+                            vals.extend(v if isinstance(v, list) else [v])
+                    if len(vals) != len(same):
+                        continue
+                    r = repr(_unprefix(vals[same.index(c['id'])]))
+                    if r in pool:
+                        pool.remove(r)
+                    else:
+                        local_ok = False
+            detail = {'kind': 'decode-holes', 'nonlocal': nonlocal_chunks if local_ok else [], 'local_chunks_streamed': local_ok, 'eager': repr(want)[:1500],
                       'lazy-filled': repr(filled)[:1500], 'streamed': n_stream, 'left': len(stream)}
             fid = known_match(case, detail)
             if fid:
@@ -805,6 +845,10 @@ def compare(ctx: Ctx, reqs: list, pend: list, drv: Optional[Driver]) -> None:
                 if eager_ns != pinned and eager_ns != repaired:
                     ctx.mismatch('eager loader namespace maps (neither the pinned nor the repaired loop)', case,
                                  eager_ns, m['eager_pinned'])
+                if m.get('eager_safe') and eager_ns != repaired:
+                    ctx.mismatch('eager loader deviates on a document that satisfies the guard of eager_nsmaps_partial',
+                                 case, eager_ns, m['inscope'])
+                ctx.count('eagerSafe:%s' % m.get('eager_safe'))
                 if kind == 'ns-known':
                     detail['eager_is_pinned_port'] = eager_ns == pinned
             elif kind == 'ns-known':
@@ -877,11 +921,6 @@ def family(ctx: Ctx, drv: Optional[Driver]) -> None:
                 ctx.count('eager-raises:' + type(ex).__name__)
                 ctx.notes.append('eager run raised: ' + traceback.format_exc()[-300:]) if len(ctx.notes) < 3 else None
         compare(ctx, reqs, pend, drv)
-
-
-WITNESSES = [
-    # (finding, xsd body, xml)
-]
 
 
 def run(ctx: Ctx, driver_ok: bool) -> None:
